@@ -234,13 +234,13 @@ func solveAll(obls []*Obligation, tmo, need int, verbose bool) []*oblResult {
 		case "timeout", "unknown", "error":
 			i, o, first := i, r.O, r.R
 			scr := r.Scr
-			again = append(again, job{name: o.Name + ".retry", script: scr, need: 1, tmo: tmo * 6, done: func(r2 *SolveResult) {
+			again = append(again, job{name: o.Name + ".retry", script: scr, need: 1, tmo: tmo * 8, done: func(r2 *SolveResult) {
 				r2.Tried = append(first.Tried, r2.Tried...)
 				r2.Time += first.Time
 				if r2.Status != "unsat" && r2.Status != "sat" && len(o.Splits) > 0 {
 					all := true
 					for si, sg := range o.Splits {
-						sr := solve(fmt.Sprintf("%s.retry.split%d", o.Name, si), o.scriptWith(sg, o.SplitBlk[si]), tmo*6, 1)
+						sr := solve(fmt.Sprintf("%s.retry.split%d", o.Name, si), o.scriptWith(sg, o.SplitBlk[si]), tmo*8, 1)
 						r2.Time += sr.Time
 						r2.Tried = append(r2.Tried, sr.Tried...)
 						if sr.Status != "unsat" {
